@@ -74,6 +74,10 @@ CHECKS = {
    text="Seeded histories (sets, clears, generated setters, oneof switches, list/map edits, extension and unknown-field writes, lazy/eager/merging decodes, decodes that fail midway on truncated or corrupt input, partial expansion of lazily held content, Marshal) end in an erasing operation: Unmarshal without Merge (lazy or eager), proto.Reset, the generated Reset method, or reflection-based reset. Every buffer the message was ever decoded from is then overwritten and the message is compared with a fresh one: Equal, deterministic bytes, and a walk over Has / WhichOneof / GetUnknown / extension set. The searched dimension is where failed decodes and lazy expansions fall in the history.",
    note="Sampling of histories. Reading or editing a message after a decode that failed midway is not part of the property (its state is unspecified); such accesses run protected and panics there are counted, not reported.",
    technique="deterministic simulation: seeded operation histories with injected failed decodes and buffer scribbles, compared against a fresh-message reference"),
+ "C05": dict(level="exploration", ref="DESIGN.md section 4 (C05)",
+   text="Decides the first sentence of the property. The nondeterminism a marshal can see is put under the simulator's control: Go map hash seeds and iteration offsets (runtime seam, re-seeded before every marshal), construction history, lazy state, and process restarts. One seeded content is realised as 10-16 messages through different histories (other map hash seeds, Clone, Merge, eager / lazy-unexpanded / lazy-expanded decode, decode from a legal non-minimal encoding, field-by-field rebuild in shuffled order with set-clear-set, delete-reinsert and grow-past-8-then-shrink detours, dynamicpb variants) and marshalled with Deterministic under several map seeds and, for a share of scenarios, in re-executions of the same binary. All encodings within one concrete type must be byte-identical.",
+   note="The converse clause (identical deterministic bytes imply proto.Equal) is a pure input property and is not decided. Sampling of contents and histories; a divergence that does not replay would mean nondeterminism from outside the seams and is itself reported.",
+   technique="deterministic simulation: seeded construction histories, seeded Go map iteration order and process restarts; byte-equality oracle within each concrete type"),
 }
 
 def main():
